@@ -214,9 +214,9 @@ class AlgebraMonitor:
         e4 = err_cov_bound(Px_rec, P, Bx)
         # the gain solves with the (scaled) innovation covariance: its rounding is proportional to that condition number
         dy = onp.sqrt(onp.abs(onp.diag(Pyref)))
-        if onp.all(dy > 0):
-            kc = float(onp.linalg.cond(Pyref / onp.outer(dy, dy)))
-        else:
+        try:
+            kc = float(onp.linalg.cond(Pyref / onp.outer(dy, dy))) if onp.all(dy > 0) and onp.all(onp.isfinite(Pyref)) else float("inf")
+        except onp.linalg.LinAlgError:
             kc = float("inf")
         if not math.isfinite(kc) or kc > 1e6:
             self.counts["revert_gain_check_skipped_ill_conditioned"] = self.counts.get("revert_gain_check_skipped_ill_conditioned", 0) + 1
@@ -225,7 +225,10 @@ class AlgebraMonitor:
             e2, e3 = e2 / max(1.0, kc), e3 / max(1.0, kc)
         e = max(e1, e2, e3, e4)
         self.note("revert", k, e)
-        ev = onp.linalg.eigvalsh((P + P.T) / 2) if P.size else onp.array([1.0])
+        try:
+            ev = onp.linalg.eigvalsh((P + P.T) / 2) if P.size and onp.all(onp.isfinite(P)) else onp.array([1.0])
+        except onp.linalg.LinAlgError:
+            ev = onp.array([0.0, 1.0])
         if ev.size and onp.min(ev) <= 1e-14 * max(onp.max(ev), 1e-300):
             self.singular_reverts += 1
         if e > 10 * self.TOL:
